@@ -1,4 +1,4 @@
-"""C10 — field types: the decoder clause only (checked decoders reject non-canonical encodings)."""
+"""C10 — field types: the decoder clause, the constants clause and two structural clauses of the batched / tower operations."""
 from ..core import walk, callee, peel, pat_bindings, short
 from ..engines import checked, hirq
 from .. import tables
@@ -7,17 +7,20 @@ from .. import tables
 def run(ck):
     w = ck.world()
     ck.explanation = (
-        'Decides only the decoder clause of the property: every checked field decoder (from_repr, from_bytes[_le/_be], from_u64s_le, SerdeObject::from_raw_bytes / '
+        'Decoder clause (R1): every checked field decoder (from_repr, from_bytes[_le/_be], from_u64s_le, SerdeObject::from_raw_bytes / '
         'read_raw) of the BLS12-381 scalar and base fields, Fp2, the Jubjub scalar field, Curve25519 and secp256k1 base fields reaches the modulus comparison of '
-        'its type, uses its result and returns failures instead of unwrapping; and (R2) each modulus comparison itself is STRICT (x < p, never x <= p), in one of '
-        'the recognised forms (borrow chain, most-significant-first scan, strict `<`). All arithmetic, constants, tower construction, square roots and uniform reduction '
-        'are numerical and NOT decided by static analysis.')
+        'its type, uses its result and returns failures instead of unwrapping; (R2) each modulus comparison itself is STRICT (x < p, never x <= p), in one of '
+        'the recognised forms (borrow chain, most-significant-first scan, strict `<`); (R3) the by-reference Sum / Product impls terminate; (R4) the coefficient-wise '
+        'methods of the generic tower fields touch every coefficient; (R5) the constants clause: the values the compiler computed for the published constants of the '
+        'prime fields (and the Montgomery constants next to them) satisfy their defining equations. The arithmetic itself, square roots, the tower multiplication '
+        'formulas and uniform reduction are numerical and NOT decided by static analysis.')
     ck.rule('C10.R1', 'CHECKED(field decoders): call closure contains the canonicity validator, its result is live, no unwrap in the decoder')
     n = checked.check_rows(ck, w, 'C10.R1', tables.C10_DECODERS)
     ck.floor('C10.R1', 'decoder/validator obligations', n, 15)
     r2_strict(ck, w)
     r3_accumulators(ck, w)
     r4_all_coefficients(ck, w)
+    r5_constants(ck, w)
     eval_nesting(ck, w, 'C10', 'C10.N1')
 
 
@@ -88,6 +91,63 @@ def r4_all_coefficients(ck, w, rule='C10.R4'):
             ck.record(rule, f'{f["_xid"]}:all-coefficients', not missing, f'touches {sorted(read)}',
                       f'{f["_xid"]} touches the coefficients {sorted(read)} but never {missing}: elements that differ only in {missing} are treated alike', hirq.fn_loc(f))
     ck.floor(rule, 'coefficient-wise methods', n, 30)
+
+
+def r5_constants(ck, w, rule='C10.R5'):
+    """published constants satisfy their defining equations"""
+    from ..engines import consteq
+    ck.rule(rule, 'published constants: for every prime field that publishes its modulus as a string and stores elements as plain limb arrays, the values the '
+                  'COMPILER computed for the constants (const evaluation, dumped by the driver; nothing of the program is run) satisfy their defining equations '
+                  'modulo p: NUM_BITS / CAPACITY, 2*TWO_INV = 1, p - 1 = 2^S * t with t odd, ROOT_OF_UNITY primitive of order 2^S and equal to GENERATOR^t, '
+                  'ROOT_OF_UNITY * ROOT_OF_UNITY_INV = 1, DELTA = GENERATOR^(2^S), GENERATOR a non-residue, ZETA a primitive cube root of unity.  The '
+                  'representation is calibrated on the type\'s own ONE (value = raw / raw(ONE)), which covers canonical and Montgomery forms.  The threshold '
+                  'constant of lexicographically_largest (`x >= HALF_MODULUS` by a borrow chain) equals (p - 1)/2 + 1.  Extension fields and opaque '
+                  'wrappers (k256, dalek) are listed as not decided.')
+    consts = consteq.load(w)
+    fields = consteq.prime_fields(consts)
+    nf = ne = 0
+    moduli = {}
+    for t, fc in sorted(fields.items()):
+        res = consteq.equations(fc)
+        if len(res) == 1 and res[0][1] is None:
+            ck.ok(rule, f'{short(t)}:not-decided', res[0][2], nontrivial=False)
+            continue
+        nf += 1
+        moduli[t] = int(fc.c['MODULUS']['str'], 16)
+        for key, ok, detail in res:
+            ne += 1
+            ck.record(rule, f'{t}:{key}', ok, detail, f'{t}::{key}: the published constant does not satisfy its defining equation ({detail}): generic code that relies on it '
+                      f'(FFT domains, square roots, permutation cosets, endomorphisms) computes with a wrong value', fc.loc.get(key.split('~')[0], ''))
+    # Montgomery / modulus constants kept next to the field types
+    nm = 0
+    for cid, name, ok, detail, loc in consteq.module_equations(consts, fields):
+        nm += 1
+        ck.record(rule, f'{cid}', ok, detail, f'{cid}: the constant does not satisfy its definition ({detail}): Montgomery reduction / conversion / canonicity tests '
+                  f'that use it compute with a wrong value', loc)
+    ck.floor(rule, 'Montgomery and modulus constants', nm, 20)
+    # threshold of lexicographically_largest
+    nh = 0
+    for c in consts:
+        if not c['id'].endswith('::lexicographically_largest::HALF_MODULUS') or 'hex' not in c:
+            continue
+        t = c['id'][:-len('::lexicographically_largest::HALF_MODULUS')]
+        p_ = moduli.get(t)
+        f = w.fn(t + '::lexicographically_largest', required=False)
+        if p_ is None or f is None:
+            ck.ok(rule, f'{short(t)}:HALF_MODULUS:not-decided', 'modulus of the type not published as a string', nontrivial=False)
+            continue
+        borrow_form = any((callee(x) or '').endswith('arithmetic::sbb') for x in hirq.calls(f['body'])) and any(x.get('k') == 'un' and x.get('op') == '!' for x in walk(f['body']))
+        if not borrow_form:
+            ck.ok(rule, f'{t}:HALF_MODULUS:not-decided', 'comparison is not the recognised borrow chain `!(x - HALF_MODULUS borrows)`', nontrivial=False)
+            continue
+        nh += 1
+        v = consteq.le(c['hex'])
+        ck.record(rule, f'{t}:HALF_MODULUS', v == (p_ - 1) // 2 + 1, 'x >= (p - 1)/2 + 1 <=> x > -x',
+                  f'{t}::lexicographically_largest compares with {hex(v)} but (p - 1)/2 + 1 = {hex((p_ - 1) // 2 + 1)}: at the boundary both x and -x (or neither) '
+                  f'claim to be the largest', f"{c['file']}:{c['line']}")
+    ck.floor(rule, 'prime fields with decided constants', nf, 4)
+    ck.floor(rule, 'constant equations', ne, 40)
+    ck.floor(rule, 'lexicographically_largest thresholds', nh, 1)
 
 
 def mentions_modulus(n):
